@@ -62,7 +62,8 @@ CHECKS.update({
             "explicit-state model checking of the implementation (BFS to fixpoint, reference-model oracle)", "4/C04"),
     "C06": ("E", "exploration",
             "Complete product contents x 12 algorithms x spellings x checksum kinds x size kinds x prior state of the "
-            "content x entry point; oracle computed with hashlib: valid iff size equal and checksum equal as "
+            "content x entry point (store_object alone, with an additional algorithm equal to the checksum algorithm / another non-default "
+            "one / a default one / the store's own, stepwise with delete_if_invalid_object, gzip stream); oracle computed with hashlib: valid iff size equal and checksum equal as "
             "case-insensitive hex.", "Trusted: hashlib, the independent layout implementation. Finite product as stated in the evidence rule.",
             "bounded-exhaustive enumeration of an input/state product against an independent oracle", "4/C06"),
     "C07": ("T", "model_checking",
@@ -121,7 +122,7 @@ CHECKS.update({
             T_NOTE + " Process death = completed system calls are durable, user-space buffers are not.",
             "stateless model checking with a per-step observer + exhaustive crash-point enumeration", "4/C09"),
     "C10": ("F", "model_checking",
-            "For 37 (call, starting state) cases the kernel-visible tree before every file-system operation and after the "
+            "For 39 (call, starting state) cases the kernel-visible tree before every file-system operation and after the "
             "last is captured; every distinct crash image is re-opened by a fresh FileHashStore: bystanders' bytes, "
             "references and metadata must be as before, the interrupted pid is served exact bytes or a not-found / "
             "inconsistency class, delete_object then store_object must succeed (also after the other pids were deleted first, and with "
@@ -142,7 +143,7 @@ CHECKS.update({
             T_NOTE, "stateless model checking under a controlled scheduler with a linearizability oracle", "4/C12"),
     "C13": ("F", "fault_enumeration",
             "Every stat of every call also fails once with EIO (existence probes); known findings C13-P1 / P2 / P3 by exact instance. "
-            "For 30 (call, starting state) cases (two of them with directory listings reversed): an OSError (EIO, ENOSPC, EACCES) at "
+            "For 32 (call, starting state) cases (two with directory listings reversed, two from a pid whose object is missing): an OSError (EIO, ENOSPC, EACCES) at "
             "every create / open / rename / remove / mkdir / write / chmod / flock / close-of-a-written-file / directory-listing "
             "operation of the recorded trace, one-off and persistent for that path; the retry after a failed store / tag runs on "
             "a fresh instance AND on the instance that saw the failure; oracle "
@@ -199,7 +200,7 @@ CHECKS.update({
             "Every client verb x option subset x value kind executed through hashstoreclient.main() on one copy of a store "
             "and through the API on another; same outcome class, API values present in the output, equal abstract states; "
             "create (-chs) over a configuration grid in both directions; option values padded with blanks / newline / tab reach the "
-            "API as given.", E_NOTE,
+            "API as given; the retrieve verbs show exactly the first 1000 bytes (long CJK and text-then-binary content).", E_NOTE,
             "bounded-exhaustive differential enumeration client vs API", "4/C20"),
 })
 
